@@ -233,7 +233,7 @@ TreeEvents(s) ==
 WindowEvents(s) ==
   \* a second bridge with its own period may exist: the window of an output is its own bridge's, whatever the other bridge's id or period
   Advance(s, 3, {0, 1, 2})
-  \cup Creates(s, {"u1"}, {Cfg("p1", "c1", p, MetaNone) : p \in {1, 2}})
+  \cup Creates(s, {"u1"}, {Cfg("p1", "c1", p, MetaNone) : p \in {1, 2, 3}})     \* 3 ticks exceed what a duration can hold: the harness passes the largest duration ("never")
   \cup (IF s.nextOut["1"] <= 2 THEN Proposes({"p1"}, {1}, {s.nextOut["1"]}, {s.nextOut["1"]}, {Root(0, "T1", "h1")}) ELSE {})
   \cup Deletes({"c1"}, {1}, 1..2)
   \cup (IF s.l1seq["1"] <= 1 THEN Deposits({"u1"}, {1}, {"u2"}, {"d1"}, {1}, {"p0"}) ELSE {})
